@@ -3,6 +3,9 @@ from . import batcher, common, mir
 from .mir import o_str
 
 
+OVERLAYS = ('K3',)
+
+
 def run(chk):
     P = mir.Program("K1")
     chk.use_program(P)
